@@ -104,7 +104,13 @@ type GRPCClient struct {
 // ClientProtocol impl.
 func (c *GRPCClient) Close() error {
 	c.broker.Close()
-	c.controller.Shutdown(c.doneCtx, &plugin.Empty{})
+
+	// Bound the shutdown request: a plugin that is stopped or wedged never
+	// answers it, and Kill (which calls Close) must still return so that it
+	// can fall back to killing the process.
+	ctx, cancel := context.WithTimeout(c.doneCtx, 2*time.Second)
+	defer cancel()
+	c.controller.Shutdown(ctx, &plugin.Empty{})
 	return c.Conn.Close()
 }
 
